@@ -3193,18 +3193,20 @@ impl<'w, 'r> LpcSubframeParameters<'w, 'r> {
         for split in usize::from(parameters.order.get())..channel.len() {
             let (previous, current) = channel.split_at(split);
 
+            // the residual is taken from the full-width prediction: a prediction
+            // wrapped to 32 bits would give a residual only a wrapping decoder undoes
             residuals.push(
-                current[0]
-                    .checked_sub(
-                        (previous
+                i32::try_from(
+                    i64::from(current[0])
+                        - (previous
                             .iter()
                             .rev()
                             .zip(&parameters.coefficients)
                             .map(|(x, y)| *x as i64 * *y as i64)
                             .sum::<i64>()
-                            >> parameters.shift) as i32,
-                    )
-                    .ok_or(ResidualOverflow)?,
+                            >> parameters.shift),
+                )
+                .map_err(|_| ResidualOverflow)?,
             );
         }
 
